@@ -135,13 +135,46 @@ func RunCase(c *Case, pick func(n int) int) *Result {
 
 // RunCaseWith lets a property customise the world before the pipeline starts.
 func RunCaseWith(c *Case, pick func(n int) int, prepare func(*World, *Runner)) *Result {
+	return RunCaseOpts(c, pick, RunOpts{Prepare: prepare})
+}
+
+// RunOpts customises a run.
+type RunOpts struct {
+	// Prepare is called after provisioning, before the pipeline is started.
+	Prepare func(*World, *Runner)
+	// Restart, if non-nil, is a store snapshot: instead of provisioning a fresh
+	// pipeline the world "boots" from it (services Init + lifecycle Init), as a
+	// server does after a crash.
+	Restart map[string][]byte
+	// MaxAcked carries over what a pruning upstream was told to discard before the crash.
+	MaxAcked map[string]int
+}
+
+// RunCaseOpts is the general form of RunCase.
+func RunCaseOpts(c *Case, pick func(n int) int, o RunOpts) *Result {
 	begin := time.Now()
-	w := NewWorld(c, nil, nil)
+	var w *World
+	if o.Restart != nil {
+		evlog := NewLog()
+		w = NewWorld(c, evlog, NewFaultDBFrom(evlog, o.Restart))
+		for id, q := range o.MaxAcked {
+			w.conn(id).maxAcked = q
+		}
+	} else {
+		w = NewWorld(c, nil, nil)
+	}
 	res := &Result{Case: c, World: w}
 	r := &Runner{W: w, Pick: pick, res: res}
 	ctx := context.Background()
+	prepare := o.Prepare
 
-	if err := w.Provision(ctx); err != nil {
+	if o.Restart != nil {
+		if err := w.InitServices(ctx); err != nil {
+			res.ProvisionErr = err
+			res.Events = w.Log.Snapshot()
+			return res
+		}
+	} else if err := w.Provision(ctx); err != nil {
 		res.ProvisionErr = err
 		res.Events = w.Log.Snapshot()
 		return res
@@ -152,11 +185,20 @@ func RunCaseWith(c *Case, pick func(n int) int, prepare func(*World, *Runner)) *
 	if c.GateCommits {
 		w.DB.CommitGate = func(int) { _ = w.Sched.Gate(context.Background(), "commit") }
 	}
+	if c.GateCallbacks {
+		w.GateCallbacks()
+	}
+	defer w.Close()
 	if prepare != nil {
 		prepare(w, r)
 	}
 
-	start := r.Call("start", func(ctx context.Context) error { return w.Engine().Start(ctx, PipelineID) })
+	var start *CtlResult
+	if o.Restart != nil {
+		start = r.Call("init", func(ctx context.Context) error { return w.Engine().Init(ctx) })
+	} else {
+		start = r.Call("start", func(ctx context.Context) error { return w.Engine().Start(ctx, PipelineID) })
+	}
 
 	idle := 12 * time.Millisecond
 	if d := time.Duration(3*c.PersistDelayMs) * time.Millisecond; d > idle {
